@@ -77,10 +77,14 @@ def space(tier):
                 cases.append(("gemmx", geom, kern, var))
         # more output channels than the array has columns: the accelerator is launched once per group of n channels, the shift / multiplier
         # registers are re-programmed in the launch lowering (checked on the CSR machine after convert-accfg-to-csr)
-        if geom == 8:  # convert-accfg-to-csr takes the accelerator from the registry (default geometry)
+        if geom == 8:
             for kern in ("qmac_rescale2N", "qmac_rescale3N", "qmac_rescale4N"):
                 cases.append(("gemmx", geom, kern, 0))
                 cases.append(("gemmx", geom, kern, 3))  # var 3: two tiles with dedup in between (see gemmx_launch_level)
+            # non-square arrays: the number of channel groups follows n, not m or k
+            for g3 in ((16, 8, 8), (4, 8, 8), (8, 4, 8), (8, 8, 16), (16, 4, 8)):
+                for kern in ("qmac_rescale2N", "qmac_rescale3N"):
+                    cases.append(("gemmx", g3, kern, 0))
     for chan, byte in itertools.product([True, False], repeat=2):
         subsets = [(), (0,), (5,), (3, 4), tuple(range(7))]
         if tier == "thorough":
@@ -296,7 +300,13 @@ def eval_alu(r, cfg, L, zero):
 def eval_gemmx(r, geom, kern, var):
     from snaxc.accelerators import snax_gemmx as GX
 
-    acc = GX.SNAXGEMMXAccelerator(GX.default_streamer, m=geom, n=geom, k=geom)
+    if isinstance(geom, tuple):
+        # non-square array (m, n, k): the per-column registers and the channel groups follow n
+        acc = GX.SNAXGEMMXAccelerator(GX.default_streamer, m=geom[0], n=geom[1], k=geom[2])
+        geom_in, geom = geom, geom[1]
+    else:
+        acc = GX.SNAXGEMMXAccelerator(GX.default_streamer, m=geom, n=geom, k=geom)
+        geom_in = geom
     decl = common.to_text(acc.generate_acc_op())
     sts = list(acc.streamer_config.data.streamers)
     var_in = var
@@ -364,10 +374,10 @@ def eval_gemmx(r, geom, kern, var):
     if kern == "rescale_only":
         pats = [(pa[0][:3], [0] * 3, [8]), (pa[0][:3], [0] * 3, [8]), (pa[0][:3], pa[1][:3], [8]), (pa[0][:3], [t + 8 for t in pa[1][:3]], [8, 64]), empty32]
     text = region_text("snax_gemmx", decl, 5, 3 if kern != "rescale_only" else None, pats, 5, 0, body, extra)
-    key = f"gemmx|{geom}|{kern}|{var_in}"
-    case_j = dict(kind="gemmx", geom=geom, kern=kern, var=var_in)
+    key = f"gemmx|{geom_in}|{kern}|{var_in}"
+    case_j = dict(kind="gemmx", geom=geom_in, kern=kern, var=var_in)
     res = run_convert(acc, text, key, case_j, r)
-    r.obs = ("gemmx", geom, kern, var_in)
+    r.obs = ("gemmx", geom_in, kern, var_in)
     r.states = 1
     r.sample = dict(kind="gemmx", n=geom, kernel=kern, patterns=[pat_text(*p) for p in pats])
     if res is None:
@@ -446,11 +456,17 @@ def gemmx_launch_level(r, acc, key, case_j, geom, groups, rs, m_total, tiles=1):
                 op.parent_block().insert_ops_before(list(acc.convert_to_acc_ops(op)), op)
             op.detach()
             op.erase()
+    # convert-accfg-to-csr takes the accelerator from the context's registry: let it find THIS instance (geometry) for the duration of the lowering
+    reg = common.ctx()._registered_accelerators
+    saved = reg["snax_gemmx"]
+    reg["snax_gemmx"] = lambda: acc
     try:
         common.run_pipeline(mod, ("cse,accfg-trace-states,accfg-dedup," if tiles == 2 else "") + "convert-accfg-to-csr")
     except Exception as e:
         r.count("launch_level_rejected:" + type(e).__name__ + ":" + str(e)[:60])
         return
+    finally:
+        reg["snax_gemmx"] = saved
     decl = acc.generate_acc_op()
     addr = {k: v.value.data for k, v in decl.field_items()}
     laddr = {k: v.value.data for k, v in decl.launch_field_items()}
@@ -805,7 +821,7 @@ def replay(case):
     if k == "alu":
         c = ("alu", _t(case["cfg"]), case["L"], case["zero"])
     elif k == "gemmx":
-        c = ("gemmx", case["geom"], case["kern"], case["var"])
+        c = ("gemmx", _t(case["geom"]), case["kern"], case["var"])
     elif k == "xdma":
         c = ("xdma", case["chan"], case["byte"], _t(case["ex"]), case["L"]) + ((case["kern"], case["order"]) if case.get("kern") else ())
     elif k == "gemmini":
